@@ -139,3 +139,54 @@ func (k *K) successPassesCall(fi *FnInfo, calls []*ssa.Call) (bool, *ssa.Return)
 	}
 	return true, nil
 }
+
+// reachingStore finds, for a load of a multi-store cell, the store that certainly
+// reaches it: the last store before the load in its own block, or in the chain of unique
+// predecessors above it. It returns nil when the cell has at most one store (handled by
+// allocTerm) or when no unique reaching store exists.
+func reachingStore(load *ssa.UnOp, al *ssa.Alloc) *ssa.Store {
+	n := 0
+	if refs := al.Referrers(); refs != nil {
+		for _, r := range *refs {
+			if st, ok := r.(*ssa.Store); ok && st.Addr == ssa.Value(al) {
+				n++
+			}
+		}
+	}
+	if n < 2 {
+		return nil
+	}
+	b := load.Block()
+	var last *ssa.Store
+	for _, in := range b.Instrs {
+		if in == ssa.Instruction(load) {
+			break
+		}
+		if st, ok := in.(*ssa.Store); ok && st.Addr == ssa.Value(al) {
+			last = st
+		}
+	}
+	if last != nil {
+		return last
+	}
+	for steps := 0; steps < 16 && len(b.Preds) == 1; steps++ {
+		b = b.Preds[0]
+		for i := len(b.Instrs) - 1; i >= 0; i-- {
+			if st, ok := b.Instrs[i].(*ssa.Store); ok && st.Addr == ssa.Value(al) {
+				return st
+			}
+			// a call that receives the cell's address (or a closure over it) may write it
+		}
+	}
+	return nil
+}
+
+// edgeHasAtom reports whether the CFG edge from->to is an if-edge carrying atom.
+func edgeHasAtom(fi *FnInfo, from, to *ssa.BasicBlock, atom string) bool {
+	for _, f := range fi.facts {
+		if f.If.Block() == from && from.Succs[f.Succ] == to && f.Atom == atom {
+			return true
+		}
+	}
+	return false
+}
